@@ -389,8 +389,8 @@ Definition validate_entry (en : entry) est prof warn pol e s cs n i : res :=
 (** * node.rs: a channel is a stub until [setup_channel] succeeds; only then can commitments
     be signed or validated on it.  [validate_setup_channel] runs before the ready channel
     replaces the stub, so a refused setup leaves the stub in place.  (The refusals of
-    setup_channel in front of the validator — funding vout above 16 bits, push value above
-    the channel value — also leave the stub; they are not modelled, the generator avoids them.) *)
+    setup_channel in front of the validator also leave the stub: push value above the channel
+    value is modelled ([setup_pre]); a funding vout above 16 bits cannot come from the wire.) *)
 
 Definition ctype_eqb (a b : ctype) : bool :=
   match a, b with
@@ -422,6 +422,17 @@ Section Lifecycle.
   Variable pol : policy.
   Variable onchain : bool.
 
+  (** setup_channel, in front of the validator, for a channel we fund:
+      [(channel_value_sat * 1000).checked_sub(push_value_msat)] — plain multiplication, refusal
+      ("policy-routing-balanced", never filtered) when the push exceeds the channel value *)
+  Definition setup_pre (s : setup) : N :=
+    if is_outbound s then
+      match mul_p prof (channel_value s) 1000 with
+      | Trap => 1
+      | Val m => if m <? push_value_msat s then 2 else 0
+      end
+    else 0.
+
   (** answer: 0 accepted, 1 panic, 2 refused *)
   Definition lstep (st : slot) (o : lop) : slot * N :=
     match o with
@@ -429,10 +440,12 @@ Section Lifecycle.
         match st with
         | Ready s' => (st, if setup_eqb s' s then 0 else 2)
         | Stub =>
-            match validate_setup_channel warn pol s with
-            | Ok => (Ready s, 0)
-            | r => (Stub, code3 r)
-            end
+            if setup_pre s =? 0 then
+              match validate_setup_channel warn pol s with
+              | Ok => (Ready s, 0)
+              | r => (Stub, code3 r)
+              end
+            else (Stub, setup_pre s)
         end
     | LSignCp e cs n i =>
         match st with
